@@ -28,7 +28,7 @@ def battery():
             L.add_model(Model(name=n, table=n, primary_key="id",
                               relationships=[Relationship(name=t, type=ty, foreign_key=fk) for t, ty, fk in rels[n]],
                               dimensions=[Dimension(name="kind", type="categorical"), Dimension(name="status", type="categorical"), Dimension(name="day", type="time", granularity="day", sql="created")],
-                              metrics=mets, segments=[Segment(name="xs", sql="{model}.kind = 'x'")]))
+                              metrics=mets, segments=[Segment(name="xs", sql="{model}.kind = 'x'"), Segment(name="done", sql="status = 'completed'")]))      # `done`: the same unqualified text on every model
         # composite keys: a detail table keyed by (order, line) with one foreign key inside its key and one outside it, a composite-keyed parent
         L.add_model(Model(name="lines", table="lines", primary_key=["order_id", "line_no"],
                           relationships=[Relationship(name="orders", type="many_to_one", foreign_key="order_id"), Relationship(name="products", type="many_to_one", foreign_key=["vendor_id", "sku"])],
@@ -77,6 +77,11 @@ def battery():
         # ONE filter string that names several models the rest of the query does not mention: their join order comes from the filter text alone
         dict(metrics=["orders.total"], dimensions=[], filters=["customers.status = 'a' AND items.kind = 'z' AND stores.kind = 'k' AND returns.status = 'r'"]),
         dict(metrics=["orders.n"], dimensions=["orders.kind"], filters=["regions.kind = 'n' AND returns.kind = 'x' AND items.status = 'o' AND customers.kind = 'c' AND stores.status = 's'"]),
+        # the same segment TEXT (unqualified) declared on different models: each query must filter its own model
+        dict(metrics=["orders.total"], dimensions=[], segments=["orders.done"]),
+        dict(metrics=["returns.total"], dimensions=[], segments=["returns.done"]),
+        dict(metrics=["customers.n"], dimensions=["customers.kind"], segments=["customers.done"], filters=["customers.kind = 'c'"]),
+        dict(metrics=["regions.n"], dimensions=[], filters=["regions.kind = 'c'"]),
     ]
     return layer, queries
 
@@ -109,6 +114,24 @@ def main():
             if dump:
                 print(sql)
                 print("-----")
+        return
+    if "--isolated" in sys.argv:
+        # every query in a process of its own (forked before anything was compiled): the reference for "regardless of which other queries were compiled before"
+        import os
+        sys.stdout.flush()
+        for i, q in enumerate(queries):
+            pid = os.fork()
+            if pid == 0:
+                try:
+                    sql = layer().compile(**q)
+                except Exception as e:
+                    sql = "ERROR %s: %s" % (type(e).__name__, e)
+                sys.stdout.write("%d\t%s\n" % (i, hashlib.sha1(sql.encode()).hexdigest()))
+                if dump:
+                    sys.stdout.write(sql + "\n-----\n")
+                sys.stdout.flush()
+                os._exit(0)
+            os.waitpid(pid, 0)
         return
     L = layer()
     snapshot = lambda: json.dumps({n: m.model_dump(mode="json") for n, m in L.graph.models.items()}, sort_keys=True, default=str) + json.dumps({n: m.model_dump(mode="json") for n, m in L.graph.metrics.items()}, sort_keys=True, default=str)
